@@ -18,6 +18,8 @@ Driver requests for L3–L5 (container fragment):
             | (F1 <name> (gc…) <g1> (gc…) <g2> cst)                   (lambda `x: body`)
             | (U <op> (gc…) <g> cst)                                  (unary operator)
             | (B cst (gc…) <g1> <op> (gc…) <g2> cst)                  (binary operator)
+            | (I (gc…) <g1> cst (gc…) <g2> (gc…) <g3> cst (gc…) <g4> (gc…) <g5> cst)   (`if` / `then` / `else`)
+            | (H cst (gc…) <g1> (gc…) <g2> (<attr>…))                 (has-attr `e ? a.b`)
     item  ::= (c <gap> <text>) | (e <gap> cst)
             | (b <gap> <name> (gc…) <g1> (gc…) <g2> cst (gc…) <g3>)
     gc    ::= (<gap> <text>)
@@ -62,6 +64,12 @@ partial def decCst : SExp → Option Cst
       pure (.sel (← decCst e) (← decGC c1) (← decText g1) (← decText gd) (← decTexts attrs))
   | .list [.atom "B", l, .list c1, .atom g1, .atom op, .list c2, .atom g2, r] => do
       pure (.bin (← decCst l) (← decGC c1) (← decText g1) (← decText op) (← decGC c2) (← decText g2) (← decCst r))
+  | .list [.atom "I", .list c1, .atom g1, c, .list c2, .atom g2, .list c3, .atom g3, t, .list c4, .atom g4, .list c5,
+      .atom g5, e] => do
+      pure (.ite (← decGC c1) (← decText g1) (← decCst c) (← decGC c2) (← decText g2) (← decGC c3) (← decText g3)
+              (← decCst t) (← decGC c4) (← decText g4) (← decGC c5) (← decText g5) (← decCst e))
+  | .list [.atom "H", e, .list c1, .atom g1, .list c2, .atom g2, .list attrs] => do
+      pure (.has (← decCst e) (← decGC c1) (← decText g1) (← decGC c2) (← decText g2) (← decTexts attrs))
   | .list [.atom "U", .atom op, .list c, .atom g, e] => do
       pure (.un (← decText op) (← decGC c) (← decText g) (← decCst e))
   | .list [.atom "F1", .atom n, .list c1, .atom g1, .list c2, .atom g2, b] => do
@@ -100,6 +108,10 @@ partial def encCst : Cst → SExp
   | .sel e c1 g1 gd attrs => .list [.atom "D", encCst e, encGC c1, sText g1, sText gd, .list (attrs.map sText)]
   | .bin l c1 g1 op c2 g2 r => .list [.atom "B", encCst l, encGC c1, sText g1, sText op, encGC c2, sText g2, encCst r]
   | .un op c g e => .list [.atom "U", sText op, encGC c, sText g, encCst e]
+  | .ite c1 g1 c c2 g2 c3 g3 t c4 g4 c5 g5 e =>
+    .list [.atom "I", encGC c1, sText g1, encCst c, encGC c2, sText g2, encGC c3, sText g3, encCst t, encGC c4, sText g4,
+      encGC c5, sText g5, encCst e]
+  | .has e c1 g1 c2 g2 attrs => .list [.atom "H", encCst e, encGC c1, sText g1, encGC c2, sText g2, .list (attrs.map sText)]
   | .lam n c1 g1 c2 g2 b => .list [.atom "F1", sText n, encGC c1, sText g1, encGC c2, sText g2, encCst b]
   | .selOr e c1 g1 gd attrs c2 g2 g3 d =>
     .list [.atom "O", encCst e, encGC c1, sText g1, sText gd, .list (attrs.map sText), encGC c2, sText g2, sText g3,
